@@ -486,6 +486,38 @@ func exportNoOverride(r *core.Run, pk *packages.Package) {
 				copied[st.field] = true
 			}
 		}
+		// a flag of the same name as a flag of the receiver is that flag, not a function of it
+		// and of other attributes: `ExplicitlyOptional: prop.ExplicitlyOptional && !…` (also
+		// through one local) exports something the importer cannot tell from the plain value
+		for _, st := range stores {
+			bt, ok := info.TypeOf(st.val).Underlying().(*types.Basic)
+			if !ok || bt.Info()&types.IsBoolean == 0 || fromRecv(st.val) {
+				continue
+			}
+			val := st.val
+			if id, isID := core.Unparen(val).(*ast.Ident); isID {
+				if def := soleDefinition(info, id); def != nil {
+					val = def
+				}
+			}
+			if fromRecv(val) {
+				continue
+			}
+			name := st.field[strings.LastIndex(st.field, ".")+1:]
+			mentions := false
+			ast.Inspect(val, func(x ast.Node) bool {
+				if sel, ok := x.(*ast.SelectorExpr); ok && sel.Sel.Name == name && fromRecv(sel) {
+					mentions = true
+				}
+				return !mentions
+			})
+			if !mentions {
+				continue
+			}
+			n++
+			o := r.Add("R-SYM/S5x", "j5schema."+core.FuncName(fd)+" | "+st.field+" computed as "+core.NormExpr(info, val), st.pos, "exported "+st.field+" is the in-memory value")
+			o.Fail("%s is exported as %s, a function of the in-memory flag and of other attributes: where those attributes differ between a reflected and a re-imported schema (or simply mask the flag) the export of the re-imported schema differs from the first export", st.field, core.ExprStr(val))
+		}
 		for _, st := range stores {
 			bt, ok := info.TypeOf(st.val).Underlying().(*types.Basic)
 			if !ok || bt.Info()&(types.IsBoolean|types.IsString) == 0 || !copied[st.field] || fromRecv(st.val) {
